@@ -41,3 +41,4 @@ func And(a, b bool) bool
 func Or(a, b bool) bool
 func Not(a bool) bool
 func Implies(a, b bool) bool
+func YAMLAssume(valid bool)
